@@ -157,9 +157,12 @@ def plaintext(i, kind):
     """Every other slot holds a multi-line secret with CR LF line ends and a bare CR (a key exported elsewhere):
     the plaintext is bytes to be carried over exactly, not text to be normalised."""
     tail = "\r\nsecond line\rthird\nfourth" if i % 2 else ""
+    # every third slot BEGINS with blanks / a tab (an indented snippet, a passphrase with leading blanks): leading
+    # whitespace is part of the plaintext (trailing whitespace is not carried by the unchanged code: from-code)
+    head = ("  ", "\t ")[i % 2] if i % 3 == 2 else ""
     if kind in ("F", "AF", "L"):
-        return "long secret number %d, long enough to need several lines%s" % (i, tail)
-    return "secret-%d pa$$word%s" % (i, tail)
+        return "%slong secret number %d, long enough to need several lines%s" % (head, i, tail)
+    return "%ssecret-%d pa$$word%s" % (head, i, tail)
 
 
 def slot_render(kinds, i, indent):
@@ -670,7 +673,7 @@ def run(tier="quick", seed=0, jobs=None):
     return total.result(
         rule=("eyaml_rotate_keys.main() with the stand-in eyaml over block-YAML documents = shapes x slot-kind assignments "
               "(plain/int/null/bool/anchored plain+alias; encrypted plain, double-quoted, folded, literal, anchored, anchored "
-              "folded, alias of an anchored secret; every other secret a multi-line plaintext with CR LF and a bare CR); decrypt-with-new == decrypt-with-old, old key fails, sharing kept, "
+              "folded, alias of an anchored secret; every other secret a multi-line plaintext with CR LF and a bare CR, every third one beginning with blanks / a tab); decrypt-with-new == decrypt-with-old, old key fails, sharing kept, "
               "invocation count == distinct secrets, everything else equal; secret-less files untouched (bytes, inode, mtime, "
               "no .bak); is_eyaml_value == 'ignoring space/newline starts with ENC[' on all %d strings of length <= %d over %r"
               % (n_marker, max_len, "".join(ALPHABET))),
